@@ -64,6 +64,12 @@ void Variable::set(Value *_data, bool copy) {
         ref->set(_data, copy);
         return;
     }
+    if (copy && data != nullptr && type.type == DataType::COMPOSITE) {
+        // a record that already exists is assigned member by member, like a record variable itself: its members stay
+        // the same objects, so pointers and BYREF parameters that refer to them remain valid
+        if (_data != data) *static_cast<PSC::Composite*>(data) = *static_cast<const PSC::Composite*>(_data);
+        return;
+    }
     if (data != nullptr) delete data;
     if (!copy) {
         data = _data;
